@@ -228,3 +228,55 @@ M('c07-asgi-fixed-ctor-pos-counts-buffer', 'C07', 'R4', A,
 M('c07-asgi-fixed-read-counter-after-zeroing', 'C07', 'R4', A,
   "                    num_bytes_available += self._bytes_remaining\n                    self._bytes_remaining = 0\n",
   "                    self._bytes_remaining = 0\n                    num_bytes_available += self._bytes_remaining\n")
+
+# ------------------------------------------------------------------ wave 4: the clamp behind a helper method (R2 looks through it)
+_CLAMP_IN_READ = "        if size is None or size < 0 or size > self._bytes_remaining:\n            size = self._bytes_remaining\n"
+_CLAMP_IN_READLINES = "        if hint is None or hint < 0 or hint > self._bytes_remaining:\n            hint = self._bytes_remaining\n"
+_BEFORE_READABLE = "    def readable(self) -> bool:\n"
+
+
+def _clamp_helper(cond):
+    return ("    def _clamp(self, size: Optional[int]) -> int:\n        if %s:\n            return self._bytes_remaining\n\n"
+            "        return size\n\n" % cond) + _BEFORE_READABLE
+
+
+# (s4-c07-1) the shared helper adopts the readlines() hint convention `size <= 0` -> no limit; read(0) returns the rest of the body
+M2('c07-wsgi-clamp-helper-hint-convention', 'C07', 'R2', [
+    {'file': W, 'old': _CLAMP_IN_READ, 'new': "        size = self._clamp(size)\n"},
+    {'file': W, 'old': _CLAMP_IN_READLINES, 'new': "        hint = self._clamp(hint)\n"},
+    {'file': W, 'old': _BEFORE_READABLE, 'new': _clamp_helper("size is None or size <= 0 or size > self._bytes_remaining")}])
+# the classic falsy-zero slip in the helper
+M2('c07-wsgi-clamp-helper-falsy-size', 'C07', 'R2', [
+    {'file': W, 'old': _CLAMP_IN_READ, 'new': "        size = self._clamp(size)\n"},
+    {'file': W, 'old': _BEFORE_READABLE, 'new': _clamp_helper("not size or size < 0 or size > self._bytes_remaining")}])
+# the helper only normalises None / negatives; the upper bound got lost in the move
+M2('c07-wsgi-clamp-helper-no-upper-bound', 'C07', 'R2', [
+    {'file': W, 'old': _CLAMP_IN_READ, 'new': "        size = self._clamp(size)\n"},
+    {'file': W, 'old': _BEFORE_READABLE, 'new': _clamp_helper("size is None or size < 0")}])
+# two levels: the predicate lives in a second helper and treats 0 as "unbounded"
+M2('c07-wsgi-clamp-two-helpers-zero-unbounded', 'C07', 'R2', [
+    {'file': W, 'old': _CLAMP_IN_READ, 'new': "        size = self._clamp(size)\n"},
+    {'file': W, 'old': _BEFORE_READABLE,
+     'new': "    def _unbounded(self, n: Optional[int]) -> bool:\n        return n is None or n <= 0\n\n"
+            "    def _clamp(self, size: Optional[int]) -> int:\n        if self._unbounded(size):\n            return self._bytes_remaining\n\n"
+            "        return min(size, self._bytes_remaining)\n\n" + _BEFORE_READABLE}])
+# the same slip without any helper
+M('c07-wsgi-zero-size-means-everything', 'C07', 'R2', W,
+  "if size is None or size < 0 or size > self._bytes_remaining:", "if size is None or size <= 0 or size > self._bytes_remaining:")
+
+# ------------------------------------------------------------------ wave 4: decisions about consumption rest on bytes obtained (R3)
+_EXHAUST_LOOP = "        while True:\n            chunk = self.read(chunk_size)\n            if not chunk:\n                break\n"
+# (s4-c07-2) exhaust() counts down the sizes it asked for
+M('c07-wsgi-exhaust-countdown-of-requested-sizes', 'C07', 'R3', W, _EXHAUST_LOOP,
+  "        pending = self._bytes_remaining\n        while pending > 0:\n            size = min(chunk_size, pending)\n"
+  "            if not self.read(size):\n                break\n\n            pending -= size\n")
+M('c07-wsgi-exhaust-countdown-ignores-result', 'C07', 'R3', W, _EXHAUST_LOOP,
+  "        pending = self._bytes_remaining\n        while pending > 0:\n            self.read(chunk_size)\n            pending -= chunk_size\n")
+# the number of reads is fixed up front from a snapshot of the budget
+M('c07-wsgi-exhaust-range-of-budget-snapshot', 'C07', 'R3', W, _EXHAUST_LOOP,
+  "        for _ in range(0, self._bytes_remaining, chunk_size):\n            self.read(chunk_size)\n")
+# a short read is taken for the end of the body
+M('c07-wsgi-exhaust-stops-on-short-read', 'C07', 'R3', W, _EXHAUST_LOOP,
+  "        while True:\n            chunk = self.read(chunk_size)\n            if len(chunk) < chunk_size:\n                break\n")
+# one read of "everything that is left"
+M('c07-wsgi-exhaust-single-read', 'C07', 'R3', W, _EXHAUST_LOOP, "        self.read(self._bytes_remaining)\n")
